@@ -779,7 +779,7 @@ impl EmptiedLikeFresh {
                     let mut c = q.clone();
                     let mut mm = m.clone();
                     let mut un = false;
-                    let op = Op::Drain { front: f as u8, back: b as u8, end };
+                    let op = Op::Drain { front: f as u32, back: b as u32, end };
                     step(&mut c, &op, &mut mm, &mut un)?;
                     cases += self.continuations(&c, &format!("{op:?}"))?;
                 }
